@@ -26,7 +26,7 @@ DESIGN_REF = "DESIGN.md section 4.11"
 TECHNIQUE = ("rely/guarantee decomposition; both halves by solver-enumerated (CrossHair+z3 selectors) interference "
              "position x action over the real Memory/store code on a model file system with an event hook before "
              "every primitive")
-LEVEL_TEXT = ("Every file-system primitive of 7 participant workloads x 13 interference actions (quick: one per run, "
+LEVEL_TEXT = ("Every file-system primitive of 7 participant workloads x 14 interference actions (quick: one per run, "
               "thorough: two): the participant returns the right value and raises nothing; every mutation the participant "
               "issues itself belongs to the interference relation, which closes the argument for any number of processes.")
 LEVEL_NOTE = ("Trusted: CrossHair/z3 for completeness; the file-system model (POSIX rename atomicity, non-atomic rmtree); the "
@@ -38,10 +38,10 @@ STUBS = ["fakefs with event hook", "fake clock", "warnings/traceback/pydoc cuts"
 ASSUMES = ["POSIX rename is atomic", "other participants are joblib processes (their effects are in R)"]
 OUTSIDE = ["more than 2 interference actions per run", "non-joblib writers in the cache directory"]
 
-SRC = "def f(a, b=2):\n    return ('val', a, b)\n\ndef h(a):\n    return ('h', a)\n"
+SRC = "def f(a, b=2):\n    # caf\u00e9\n    return ('val', a, b)\n\ndef h(a):\n    return ('h', a)\n"
 WORKLOADS = ["cold", "warm", "shelve", "reduce", "clear", "other_func", "code_change"]
 ACTIONS = ["rm_output", "rm_meta", "rm_code", "rm_entry", "wipe_func", "clear_all", "store_same", "dir_only",
-           "output_only", "torn_code_13", "torn_code_half", "empty_code", "same_mkdir"]
+           "output_only", "torn_code_13", "torn_code_half", "empty_code", "same_mkdir", "torn_code_mb"]
 
 _PLAN = {}
 
@@ -175,7 +175,8 @@ def _interfere(fs, action, event=None):
     elif action.startswith("torn_code") or action == "empty_code":
         if func_dir in fs.dirs:
             full = _PLAN["code"]
-            k = {"torn_code_13": 13, "torn_code_half": len(full) // 2, "empty_code": 0}[action]
+            k = {"torn_code_13": 13, "torn_code_half": len(full) // 2, "empty_code": 0,
+                 "torn_code_mb": full.find(b"\xc3") + 1}[action]      # in the middle of a 2-byte character
             fs.files[code] = full[:k]
 
 
@@ -206,7 +207,7 @@ def _run_with_interference(wl, plan):
 def ob_rely(e: int, act: int, e2: int, act2: int) -> bool:
     """
     pre: 0 <= e <= 400 and -1 <= e2 <= 400
-    pre: 0 <= act <= 12 and 0 <= act2 <= 12
+    pre: 0 <= act <= 13 and 0 <= act2 <= 13
     post: _
     """
     H.enter()
@@ -220,7 +221,7 @@ def ob_rely(e: int, act: int, e2: int, act2: int) -> bool:
     H.assume(act == H.P("action"))
     ee = H.select_bisect(e, 0, n - 1)
     e2v = H.select_bisect(e2, -1, n - 1)
-    a2 = H.select(act2, 0, 12)
+    a2 = H.select(act2, 0, 13)
     with H.native():
         plan = [(ee, ACTIONS[H.P("action")])] + ([(e2v, ACTIONS[a2])] if e2v >= 0 else [])
         probs = _run_with_interference(H.P("workload"), plan)
